@@ -73,7 +73,7 @@ def stmt_failure(idx, pos, w, rng=None):
     if (np.abs(gu) > 1e-7 * (np.abs(A).T @ (np.abs(ru) + 1e-12 * sc)) + 1e-9 * len(idx) * sc).any():
         return 'optimize is not the unweighted least-squares optimum'
     # rescaling the weights
-    k = float(rng.choice([1e-3, 0.5, 7.0, 1e3]))
+    k = float(rng.choice([1e-8, 1e-6, 1e-3, 0.5, 7.0, 1e3, 1e6]))
     m2 = matcher.affinematch(centers=pos, refineds=pos, peak_values=w * k, peak_elevations=w * k, indices=idx)
     if m2.isnan() or len(m2) != len(pos) or not (np.allclose(m2.zero, m.zero, atol=1e-7 * sc) and np.allclose(m2.a, m.a, atol=1e-7 * sc) and np.allclose(m2.b, m.b, atol=1e-7 * sc)):
         return 'rescaling all weights by %s changes the fit (selected %d of %d)' % (k, len(m2), len(pos))
@@ -91,12 +91,61 @@ def stmt_failure(idx, pos, w, rng=None):
     return None
 
 
+def history_failure(rng, ncalls=4):
+    '''one Matcher object and one index / position / weight buffer re-filled in place between calls: every call must give
+    what a fresh Matcher gives on fresh arrays (no state carried over between calls)'''
+    n = int(rng.integers(4, 12))
+    matcher = grm.Matcher()
+    bi, bp, bw = np.zeros((n, 2)), np.zeros((n, 2)), np.zeros(n)
+    hist = []
+    for c in range(ncalls):
+        while True:
+            idx, pos, w = gen(rng)
+            if len(idx) >= n:
+                idx, pos, w = idx[:n], pos[:n], w[:n]
+                M = np.hstack([np.ones((n, 1)), idx])
+                if np.linalg.matrix_rank(M) == 3 and np.linalg.cond(M) < 100:
+                    break
+        bi[:], bp[:], bw[:] = idx, pos, w
+        hist.append((idx.tolist(), pos.tolist(), w.tolist()))
+        try:
+            m = matcher.affinematch(centers=bp, refineds=bp, peak_values=bw, peak_elevations=bw, indices=bi)
+            ref = grm.Matcher().affinematch(centers=pos.copy(), refineds=pos.copy(), peak_values=w.copy(), peak_elevations=w.copy(), indices=idx.copy())
+        except Exception as e:  # noqa
+            return 'affinematch raised %s in call %d of a history' % (type(e).__name__, c), hist
+        if not (np.array_equal(m.zero, ref.zero) and np.array_equal(m.a, ref.a) and np.array_equal(m.b, ref.b) and m.error == ref.error):
+            return ('call %d on a re-used Matcher with index/position/weight buffers re-filled in place gives zero %s a %s b %s, a fresh Matcher on fresh arrays gives zero %s a %s b %s'
+                    % (c, np.asarray(m.zero).tolist(), np.asarray(m.a).tolist(), np.asarray(m.b).tolist(), np.asarray(ref.zero).tolist(), np.asarray(ref.a).tolist(), np.asarray(ref.b).tolist())), hist
+    return None, hist
+
+
 def mk_replay(idx, pos, w, fail):
     return {'kind': 'input', 'call': 'Matcher.affinematch / Match.weighted_optimize', 'args': {'indices': idx.tolist(), 'positions': pos.tolist(), 'weights': w.tolist()}, 'failure': fail}
 
 
+def replay_history(hist):
+    matcher = grm.Matcher()
+    n = len(hist[0][0])
+    bi, bp, bw = np.zeros((n, 2)), np.zeros((n, 2)), np.zeros(n)
+    for c, (idx, pos, w) in enumerate(hist):
+        idx, pos, w = np.array(idx), np.array(pos), np.array(w)
+        bi[:], bp[:], bw[:] = idx, pos, w
+        m = matcher.affinematch(centers=bp, refineds=bp, peak_values=bw, peak_elevations=bw, indices=bi)
+        ref = grm.Matcher().affinematch(centers=pos.copy(), refineds=pos.copy(), peak_values=w.copy(), peak_elevations=w.copy(), indices=idx.copy())
+        if not (np.array_equal(m.zero, ref.zero) and np.array_equal(m.a, ref.a) and np.array_equal(m.b, ref.b)):
+            return 'call %d of the history differs from a fresh Matcher on fresh arrays' % c
+    return None
+
+
 def replay(body):
     a = body['args']
+    if 'history' in a:
+        fail = replay_history(a['history'])
+        print(json.dumps({'failure_now': fail}, indent=1))
+        if fail:
+            print('VIOLATION property=C06 replay=(given)')
+            return 1
+        return 0
     fail = stmt_failure(np.array(a['indices']), np.array(a['positions']), np.array(a['weights']))
     print(json.dumps({'failure_now': fail}, indent=1))
     if fail:
@@ -169,6 +218,12 @@ def run(ctx):
         ctx.obligation('K:C06 collinear indices are singular in the model (%d)' % k, mv == 0, str(mv))
 
     nS = ctx.n(120, 2500)
+    for k in range(ctx.n(10, 100)):
+        fail, hist = history_failure(rng)
+        ctx.count(len(hist), key=('history', json.dumps(hist)[:300]))
+        if fail:
+            ctx.violation('input', fail, {'kind': 'history', 'call': 'Matcher.affinematch (re-used object and buffers)', 'args': {'history': hist}, 'failure': fail})
+            break
     for k in range(nS):
         idx, pos, w = gen(rng)
         fail = stmt_failure(idx, pos, w, rng)
